@@ -37,3 +37,11 @@ package config
 //@   pure
 //@   ensures result != nil
 //@ end
+
+// ASSUMED about the configuration: the retention is between 0 and 1 000 000
+// hours (114 years); larger values would overflow the duration arithmetic.
+//@ func GetRetentionHours
+//@   assumed
+//@   pure
+//@   ensures result >= 0 && result <= 1000000
+//@ end
